@@ -100,6 +100,65 @@ def first_diff(a, b, path=""):
     return path or "."
 
 
+def canon_close(a, b, rtol=1e-11, atol=1e-13):
+    """equality of two canonical forms up to rounding in numeric arrays (in-place and out-of-place products are different
+    numpy code paths); structure, shapes, dtypes and everything else must be identical"""
+    if a == b:
+        return True
+    if isinstance(a, tuple) and isinstance(b, tuple) and len(a) == len(b) and len(a) > 0:
+        if a[0] == "arr" and b[0] == "arr" and len(a) == 4:
+            if a[1] != b[1] or a[2] != b[2] or a[1][1] not in "fc":
+                return False
+            x = np.frombuffer(a[3], dtype=np.dtype(a[1])); y = np.frombuffer(b[3], dtype=np.dtype(b[1]))
+            return bool(np.allclose(x, y, rtol=rtol, atol=atol, equal_nan=True))
+        if a[0] == "np" and b[0] == "np" and a[1] == b[1] and a[1][1] in "fc":
+            return bool(np.allclose(np.frombuffer(a[2], dtype=np.dtype(a[1])), np.frombuffer(b[2], dtype=np.dtype(b[1])), rtol=rtol, atol=atol))
+        return all(canon_close(u, v, rtol, atol) for u, v in zip(a, b))
+    return False
+
+
+def share(a, b):
+    return bool(a.size and b.size and np.may_share_memory(a, b) and np.shares_memory(a, b))
+
+
+def partials_of(sm):
+    """[(label, key, StateMatrix)] of sm.order1 / sm.order2"""
+    out = []
+    for nm in ("order1", "order2"):
+        d = getattr(sm, nm, None)
+        if isinstance(d, dict):
+            out += [(nm, k, v) for k, v in d.items()]
+    return out
+
+
+def partials_distinct(sm, op=None):
+    """The partial state matrices of ONE state must be pairwise distinct objects whose arrays share no memory with each other,
+    with the zeroth-order state, or with the operator's arrays.  (sm.order2 stores each pair under (v1,v2) and (v2,v1):
+    that mirror entry is the same object by design.)  Returns a description of the first offence, or None."""
+    ps = partials_of(sm)
+    if not ps:
+        return None
+    arrs = [[a for _, a in arrays_of(v)] for _, _, v in ps]
+    main = [a for _, a in arrays_of(getattr(sm, "arrays", None))]
+    oparr = [a for _, a in arrays_of(op)] if op is not None else []
+    for i, (ni, ki, vi) in enumerate(ps):
+        for x in arrs[i]:
+            if any(share(x, m) for m in main):
+                return "%s[%r] shares memory with the state's own arrays" % (ni, ki)
+            if any(share(x, m) for m in oparr):
+                return "%s[%r] shares memory with the operator's arrays" % (ni, ki)
+        for j in range(i + 1, len(ps)):
+            nj, kj, vj = ps[j]
+            mirror = ni == nj == "order2" and isinstance(ki, tuple) and isinstance(kj, tuple) and tuple(ki) == tuple(kj)[::-1]
+            if mirror:
+                continue
+            if vi is vj:
+                return "%s[%r] and %s[%r] are the SAME StateMatrix object" % (ni, ki, nj, kj)
+            if any(share(x, y) for x in arrs[i] for y in arrs[j]):
+                return "%s[%r] and %s[%r] share memory" % (ni, ki, nj, kj)
+    return None
+
+
 def arrays_of(x, path="", out=None, stack=None, containers=None):
     """all ndarrays (and, optionally, mutable containers) reachable from x, with their attribute path"""
     if out is None:
@@ -343,6 +402,10 @@ def run_shared(hist, observe=True):
                     events.append({"kind": "mutation", "step": step, "obj": k, "type": type(env[k]).__name__,
                                    "path": first_diff(before[k], after[k]),
                                    "is_init": c.get("init") in same, "is_left": c.get("a") in same})
+            if c["do"] == "apply" and is_sm(r):
+                why = partials_distinct(r, env[c["op"]])
+                if why:
+                    events.append({"kind": "partials", "step": step, "obj": c["sm"], "path": why, "type": "StateMatrix"})
             # aliasing between the result and the inputs of an out-of-place call
             if tgt is None and not isinstance(r, Raised) and c["do"] in ("apply", "copy", "simulate", "acquire", "build", "vcall"):
                 events += alias_events(c, step, r, [(k, env[k]) for k in refs])
@@ -387,7 +450,7 @@ def alias_events(c, step, r, inputs):
 
 def run_pure(hist):
     """reference semantics of Model/Purity.v on the implementation: values are pristine deep copies"""
-    store, res, args_at = [], [], []
+    store, res, args_at, mode_events = [], [], [], []
     for spec in hist["objects"]:
         try:
             o = build_object(spec)
@@ -415,6 +478,8 @@ def run_pure(hist):
             r = exec_call(c, arg)
         except Exception as e:
             r = Raised(e)
+        if c["do"] == "apply":
+            mode_events += other_mode(c, len(store), r, store)
         tgt = inplace_target(c)
         if tgt is not None and not isinstance(r, Raised):
             store[tgt] = copy.deepcopy(handed[tgt])
@@ -425,7 +490,34 @@ def run_pure(hist):
             r = copy.deepcopy(r) if not isinstance(r, Raised) else r
         store.append(r)
         res.append(cr)
-    return {"results": res, "store": store, "args": args_at}
+    return {"results": res, "store": store, "args": args_at, "mode_events": mode_events}
+
+
+def has_partial_attrs(sm):
+    return hasattr(sm, "order1") or hasattr(sm, "order2")
+
+
+def other_mode(c, step, r, store):
+    """the same application in the other mode (in place <-> out of place) on fresh copies of the same values"""
+    import epgpy as epg
+    try:
+        op, sm = copy.deepcopy(store[c["op"]]), copy.deepcopy(store[c["sm"]])
+        r2 = op(sm, inplace=not c["inplace"])
+    except Exception as e:
+        r2 = Raised(e)
+    ca, cb = canon(r), canon(r2)
+    if canon_close(ca, cb):
+        return []
+    op0, sm0 = store[c["op"]], store[c["sm"]]
+    plain = not isinstance(op0, epg.operators.DiffOperator)
+    if plain and is_sm(sm0) and has_partial_attrs(sm0):
+        sig = {"site": "Operator.__call__", "why": "outofplace-drops-partials"}
+    else:
+        sig = {"site": ("Operator" if plain else "DiffOperator") + ".__call__", "why": "inplace-differs-from-outofplace"}
+    a, b = (ca, cb) if c["inplace"] else (cb, ca)
+    return [{"sig": sig, "step": step, "kind": "mode", "obj": c["sm"],
+             "what": "call %d: op(sm, inplace=True) and op(sm) on the same values return different results, first difference at %s "
+                     "(in place vs out of place)" % (step, first_diff(b, a))}]
 
 
 # =====================================================================================================
@@ -454,6 +546,8 @@ def classify(hist, ev):
             opk = type_of_ref(hist, c.get("op"))
             return {"site": "%s.__call__" % ("Probe" if opk in ("probe",) else c["do"]), "why": "returns-input-object"}
         return {"site": c["do"], "why": "result-aliases-input", "path": path.split("[")[0][:60]}
+    if ev["kind"] == "partials":
+        return {"site": "DiffOperator.__call__", "why": "partials-share-objects"}
     if ev["kind"] == "raises":
         return {"site": c["do"], "why": "raises"}
     return {"site": c["do"], "why": ev["kind"]}
@@ -527,9 +621,15 @@ def analyse(hist, deep=True):
         elif ev["kind"] == "alias":
             what = "result of out-of-place call %d (%s) shares memory / a mutable container with its input #%d at %s" % (
                 ev["step"], describe(hist, ev["step"]), ev["obj"], ev["path"])
+        elif ev["kind"] == "partials":
+            what = "state matrix returned by call %d (%s): %s -- the partials of one state must be independent objects (an operator applied " \
+                   "in place would act twice on a shared one)" % (ev["step"], describe(hist, ev["step"]), ev["path"])
         else:
             what = ev["what"]
         problems.append({"sig": sig, "step": ev["step"], "what": what, "kind": ev["kind"], "obj": ev.get("obj")})
+    # in place vs out of place, every application (pure values)
+    for ev in pu["mode_events"]:
+        problems.append(dict(ev, what=ev["what"].replace("call %d:" % ev["step"], "call %d (%s):" % (ev["step"], describe(hist, ev["step"])))))
     # (c) shared vs pure
     for k in range(n0, len(sh["results"])):
         if sh["results"][k] != pu["results"][k]:
@@ -684,6 +784,7 @@ def stepping_check(hist, pu):
                                     break
                         row.append(copy.deepcopy(v))
                     values.append(row)
+            rows_in = values
             values = tuple(zip(*values))
             if allopts.get("asarray", True):
                 values = tuple(np.asarray(arr) for arr in values)
@@ -691,6 +792,28 @@ def stepping_check(hist, pu):
                 values = values[0]
         except Exception:
             continue            # the oracle itself could not be evaluated (ragged asarray, ...): no verdict
+        # the same sequence stepped OUT OF PLACE (op(sm) returns a new state each time): recorded values, Jacobian / Hessian
+        # included, must agree with in-place execution.  Only when every operator is differentiable: a plain operator applied
+        # out of place drops the partials (known finding of C02 / C09).
+        try:
+            if all(isinstance(op, (epg.operators.DiffOperator, epg.operators.Probe)) for op in flat):
+                if c.get("init") is not None:
+                    sm = copy.deepcopy(A[c["init"]]).copy()
+                    sm.options.update(opts)
+                else:
+                    sm = epg.StateMatrix([0, 0, 1], nstate=0, shape=epg.functions.getshape(flat), **opts)
+                rows_out = []
+                for op in copy.deepcopy(flat):
+                    sm = op(sm)
+                    if isinstance(op, epg.operators.Probe):
+                        rows_out.append([copy.deepcopy((pb or op).acquire(sm, post=op.post)) for pb in (copy.deepcopy(probes) or [op])])
+                if not canon_close(canon(rows_in), canon(rows_out)):
+                    out.append({"sig": {"site": "simulate", "why": "inplace-differs-from-outofplace-stepping"}, "step": n0 + ci, "kind": "mode",
+                                "what": "call %d (%s): the values recorded when the operators are applied in place (as simulate() does) differ from "
+                                        "those of the same operators applied out of place, first difference at %s"
+                                        % (n0 + ci, describe(hist, n0 + ci), first_diff(canon(rows_out), canon(rows_in)))})
+        except Exception:
+            pass
         if aliased is not None:
             out.append({"sig": {"site": "Probe.acquire", "why": "recorded-value-aliases-state"}, "step": n0 + ci, "kind": "snapshot",
                         "what": "call %d (%s): the value acquired by probe %s shares memory with the live state matrix (recorded%s vs state%s): "
@@ -727,7 +850,7 @@ def shrink(hist, sig, budget=60):
     """drop calls / objects while a problem with the same signature remains; then renumber"""
     def bad(h):
         try:
-            return any(p["sig"] == sig for p in analyse(h, deep=(sig.get("why", "").startswith(("recorded", "prefix"))))[0])
+            return any(p["sig"] == sig for p in analyse(h, deep=(sig.get("why", "").startswith(("recorded", "prefix", "inplace-differs-from-outofplace-stepping"))))[0])
         except Exception:
             return False
     h = {"kind": hist.get("kind"), "objects": list(hist["objects"]), "calls": list(hist["calls"])}
@@ -782,6 +905,20 @@ def gen_synth(rng):
         k = rng.choice(["dop", "dop", "dop", "shift", "shift", "plain"])
         if k == "dop":
             o = dprog.gen_dop(rng, with_o2)
+            if rng.random() < 0.3:
+                # several variables onto one parameter: aliases / unit coefficients / mixed coefficients (first order only)
+                ps = list(o["darrs"])
+                form = rng.choice(["alias", "unit", "mixed"])
+                if form == "alias":
+                    arg = {"a": ps[0], "b": ps[0]}
+                    norm = {v: {q: 1.0} for v, q in arg.items()}
+                elif form == "unit":
+                    arg = {"a": {ps[0]: 1.0}, "z": {ps[0]: 1.0}}
+                    norm = {v: dict(d) for v, d in arg.items()}
+                else:
+                    arg = {"a": {ps[0]: 1.0}, "b": {ps[0]: 2.0}, "z": {ps[0]: 1.0, ps[-1]: -1.0}}
+                    norm = {v: dict(d) for v, d in arg.items()}
+                o.update({"order1_arg": arg, "order1": norm, "order2_arg": None, "order2": {}, "auto": True})
             add({"t": "dop", "o": o}, kind="op", cost=(7 if o["kind"] == "scalar" else 9) + (3 if with_o2 else 0), diff=True)
         elif k == "shift":
             o = {"op": "shift", "d": rng.choice([1, 1, 2, -1, -2, 3]), "nmax": rng.choice([None, None, None, 2])}
@@ -931,8 +1068,21 @@ def gen_real(rng):
 
     def o1(names):
         r = rng.random()
-        if r < 0.45:
+        if r < 0.35:
             return ""
+        if r < 0.5:
+            # several variables differentiate the SAME parameter: aliases, unit and non-unit coefficients
+            p0, p1 = names[0], names[-1]
+            form = rng.choice(["alias", "unit", "mixed", "float"])
+            if form == "alias":
+                d = {"a": p0, "b": p0} if rng.random() < 0.6 else {"a": p0, "b": p0, "c": p1}
+            elif form == "unit":
+                d = {"a": {p0: 1}, "b": {p0: 1}}
+            elif form == "float":
+                d = {"a": {p0: 1.0}, "b": {p0: 1.0}, "c": {p1: 1.0}}
+            else:
+                d = {"a": {p0: 1}, "b": {p0: 2.0}, "c": {p0: 1, p1: 0.5}}
+            return ", order1=%r" % d
         if r < 0.6:
             return ", order1=True"
         sub = [n for n in names if rng.random() < 0.6] or names[:1]
@@ -989,7 +1139,8 @@ def gen_real(rng):
     pr = ["epg.ADC", "epg.ADC", "epg.Adc('Z0', phase=30.0)", "epg.Probe('F0 * 2')", "epg.Probe('abs(Z0)', post=np.real)",
           "epg.Probe('(F0, Z0)')", "epg.Probe('[F0, Z0]')", "epg.Probe(lambda sm: (sm.F0, sm.Z0))",
           "epg.Probe(lambda sm: [sm.F, (sm.Z, sm.states)])", "epg.Probe(lambda sm: ((sm.F0, sm.Z0), sm.states))", "'(F0, Z0)'", "'[F, Z]'",
-          "epg.Jacobian(['alpha', 'T2', 'magnitude'])", "epg.Hessian(['alpha', 'T2'], ['T2', 'tau'])", "epg.Adc('F', phase=[10.0])"]
+          "epg.Jacobian(['alpha', 'T2', 'magnitude'])", "epg.Hessian(['alpha', 'T2'], ['T2', 'tau'])", "epg.Adc('F', phase=[10.0])",
+          "epg.Jacobian(['a', 'b', 'c', 'alpha'])", "epg.Jacobian(['b', 'a'])"]
     if fam == "batched":
         pr += ["epg.Adc('F0', reduce=True)", "epg.Adc('F0', weights=np.array([1.0, 2.0, 0.5]))", "epg.Adc(reduce=0, phase=45.0)"]
     if fam == "imaging":
@@ -1108,22 +1259,27 @@ def gen_vseq(rng):
         "Sequence([T('alpha', 'phi'), E('tau', 'T1', 'T2', 0.01), S(1), 'ADC', T('alpha', 'phi'), E('tau', 'T1', 'T2', 0.01), S(1), 'ADC', 'SPOILER', T(30, 0), 'ADC'])",
         "Sequence([T(Variable('alpha') * Variable('b1'), 90), P('tau', 'g'), S(1), R(1 / Variable('T2'), 1 / Variable('T1')), ADC, Phi('phi'), S(-1), ADC], options={'max_nstate': 2})",
         "Sequence(repeat([T('a', 0), E(4.0, 'T1', 'T2'), S(1), ADC], 3, a='a{0}'))",
+        "Sequence([T(Variable('a') + Variable('b'), 90), E(5.0, 'T1', 'T2'), ADC, T(2 * Variable('a') + Variable('b'), 0), E(5.0, 'T1', 'T2'), ADC])",
     ]
-    vals = {"alpha": 35.0, "phi": 20.0, "tau": 4.0, "T1": 800.0, "T2": 60.0, "g": 0.02, "b1": 0.9, "a1": 20.0, "a2": 50.0, "a3": 80.0}
+    vals = {"alpha": 35.0, "phi": 20.0, "tau": 4.0, "T1": 800.0, "T2": 60.0, "g": 0.02, "b1": 0.9, "a1": 20.0, "a2": 50.0, "a3": 80.0, "a": 20.0, "b": 15.0}
     k = rng.randrange(len(exprs))
-    names = [["alpha", "T1", "T2"], ["alpha", "phi", "tau", "T1", "T2"], ["alpha", "b1", "tau", "g", "T2", "T1", "phi"], ["a1", "a2", "a3", "T1", "T2"]][k]
+    names = [["alpha", "T1", "T2"], ["alpha", "phi", "tau", "T1", "T2"], ["alpha", "b1", "tau", "g", "T2", "T1", "phi"], ["a1", "a2", "a3", "T1", "T2"],
+             ["a", "b", "T1", "T2"]][k]
     v = {n: vals[n] for n in names}
     if rng.random() < 0.3:
         v[names[-1]] = [vals[names[-1]], vals[names[-1]] * 1.5]
-    objs = [{"t": "vseq", "expr": exprs[k]}, {"t": "sm", "expr": "epg.StateMatrix(%s)" % rng.choice(["", "max_nstate=3"])}]
+    objs = [{"t": "vseq", "expr": exprs[k]}, {"t": "sm", "expr": "epg.StateMatrix(%s)" % rng.choice(["", "max_nstate=3"])},
+            {"t": "probe", "expr": "epg.Jacobian(%r)" % names}]
     calls = []
     for _ in range(rng.randint(3, 8)):
         m = rng.choice(["signal", "jacobian", "jacobian", "hessian", "hessian", "build", "simulate", "crlb"])
         sub = rng.sample(names, rng.randint(1, min(3, len(names))))
         if m == "build":
-            calls.append({"do": "build", "vseq": 0, "values": v, "order1": sub if rng.random() < 0.6 else None, "order2": None})
-            if rng.random() < 0.5:
-                calls.append({"do": "simulate", "seq": len(objs) + len(calls) - 1, "init": rng.choice([None, 1]), "opts": {"asarray": False}, "probe": None})
+            o1v = sub if rng.random() < 0.6 else None
+            calls.append({"do": "build", "vseq": 0, "values": v, "order1": o1v, "order2": None})
+            if rng.random() < 0.6:
+                calls.append({"do": "simulate", "seq": len(objs) + len(calls) - 1, "init": rng.choice([None, 1]), "opts": {"asarray": False},
+                              "probe": (2 if o1v else None)})
         elif m == "simulate":
             calls.append({"do": "vcall", "vseq": 0, "method": "simulate", "values": v, "opts": rng.choice([{}, {"max_nstate": 2}, {"init": None}])})
         else:
